@@ -224,3 +224,39 @@ Print Assumptions C14_kernel_CalculateOffsetFromPhysAddr.
 Theorem C14_kernel_CalculateTailOffsetFromPhysAddr : forall addr, go_CalculateTailOffsetFromPhysAddr addr = Fit.tail_offset_of_phys addr.
 Proof. exact go_CalculateTailOffsetFromPhysAddr_tie. Qed.
 Print Assumptions C14_kernel_CalculateTailOffsetFromPhysAddr.
+
+(* ---------------------------------------------------------------------------------------- *)
+(* Kernel ties: the entry-header kernels of pkg/intel/metadata/fit (entry_headers.go), as TRANSCRIBED FROM THE GO SOURCE on every run
+   (translator/Kernels.sh -> Gen/GoKernels.v), equal the functions of the model (Proofs/KernelTieFit.v).
+   A change of one of these Go functions breaks the lemma. *)
+From Fiano Require Import Base.Bytes Base.GoInt Gen.GoKernels Proofs.KernelTieFit.
+Local Open Scope Z_scope.
+
+Theorem C14_kernel_Address64 :
+  (forall addr size, go_Address64_Offset addr size = Fit.offset_of_phys addr size) /\
+  (forall old off size, go_Address64_SetOffset old off size = Fit.phys_of_offset off size).
+Proof. exact (conj go_Address64_Offset_tie go_Address64_SetOffset_tie). Qed.
+Print Assumptions C14_kernel_Address64.
+
+Theorem C14_kernel_Uint24 :
+  (forall a b c, go_Uint24_Uint32 [a; b; c] = Ok (Fit.u24_get [a; b; c])) /\
+  (forall a b c v, go_Uint24_SetUint32 [a; b; c] v = Fit.u24_set v).
+Proof. exact (conj go_Uint24_Uint32_tie go_Uint24_SetUint32_tie). Qed.
+Print Assumptions C14_kernel_Uint24.
+
+Theorem C14_kernel_TypeAndIsChecksumValid :
+  (forall f, go_TypeAndIsChecksumValid_Type f = Fit.tc_type f) /\
+  (forall f, go_TypeAndIsChecksumValid_IsChecksumValid f = Fit.tc_cv f) /\
+  (forall f t, 0 <= f < 256 -> 0 <= t < 256 ->
+     go_TypeAndIsChecksumValid_SetType f t = match Fit.tc_set_type f t with Panic _ => Panic 1 | o => o end) /\
+  (forall f v, 0 <= f < 256 -> go_TypeAndIsChecksumValid_SetIsChecksumValid f v = Fit.tc_set_cv f v).
+Proof. exact (conj go_TypeAndIsChecksumValid_Type_tie (conj go_TypeAndIsChecksumValid_IsChecksumValid_tie
+         (conj go_TypeAndIsChecksumValid_SetType_tie go_TypeAndIsChecksumValid_SetIsChecksumValid_tie))). Qed.
+Print Assumptions C14_kernel_TypeAndIsChecksumValid.
+
+Theorem C14_kernel_mostCommonGetDataSegmentSize :
+  forall a b c, 0 <= a < 256 -> 0 <= b < 256 -> 0 <= c < 256 ->
+  go_EntryHeaders_mostCommonGetDataSegmentSize [a; b; c] = Ok (Fit.u24_get [a; b; c] * 16).
+Proof. exact go_EntryHeaders_mostCommonGetDataSegmentSize_tie. Qed.
+Print Assumptions C14_kernel_mostCommonGetDataSegmentSize.
+
